@@ -15,12 +15,14 @@ package afpacket
 
 //@ func (*Source).ReadPacketData
 //@   sig s
+//@   locals data: []byte ;; ci: github.com/google/gopacket.CaptureInfo ;; err: error
 //@   props C20 C06 C03 C16 C12 C11
 //@   observe ZeroCopyReadPacketData
 //@   entry row read: [call ZeroCopyReadPacketData(s.handle) as (d, ci, e)] when ret0 == d && ret2 == e && ret1 != nil -> exit
 
 //@ func NewPacketSource
 //@   sig iface, vpnMode
+//@   locals handle: *github.com/google/gopacket/afpacket.TPacket ;; err: error ;; linkType: github.com/google/gopacket/layers.LinkType
 //@   props C17 C03 C01 C05 C07 C11 C13 C15 C16 C19 C12 C02
 //@   observe NewTPacket
 //@   entry row fail: [call NewTPacket(bind_o) as (h, e)] when e != nil && ret0 == nil && ret1 == e
@@ -31,6 +33,7 @@ package afpacket
 
 //@ func (*Source).SetBPFFilter
 //@   sig s, bpfFilter, maxPacketLength
+//@   locals pcapBPF: []github.com/google/gopacket/pcap.BPFInstruction ;; err: error ;; bpfIns: []golang.org/x/net/bpf.RawInstruction ;; ins: github.com/google/gopacket/pcap.BPFInstruction ;; rawIns: golang.org/x/net/bpf.RawInstruction
 //@   props C03
 //@   observe pcap.CompileBPFFilter, SetBPF
 //@   entry row bad:  [call pcap.CompileBPFFilter(s.linkType, maxPacketLength, bpfFilter) as (ins, e)] when e != nil && ret == e -> exit
